@@ -82,6 +82,8 @@ RAW = [
     ("typing.Tuple", False), ("typing.Set", False), ("typing.Sequence", False), ("typing.Mapping", False),
     ("VwTB", False), ("VwTC", False), ("type[int]", False), ("typing.Type[str]", False), ("type", False),
     ("VwG[int]", False), ("VwG", False), ("VwGD[str]", False), ("VwGD", False), ("VwNoAnn", False), ("VwEmpty", False), ("VwTwoVar", False),
+    ("tuple[list[vwx.VwXOwner], vwx.VwXOwner]", False), ("dict[str, tuple[vwx.VwXPayee, list[vwx.VwXPayee]]]", False),
+    ("typing.Union[list[vwx.VwXPayee], vwx.VwXPayee]", False), ("tuple[vwx.VwXSelf, list[vwx.VwXSelf], vwx.VwXOwner]", False), ("vwx.VwXOwner", False),
     ("VwAnyFields", False), ("VwScale", False), ("list[VwScale]", False), ("VwParent", False), ("VwChild", False), ("VwSelf", False), ("list[VwParent]", False), ("dict[str, VwSelf]", False),
     ("list[typing.Any]", False), ("dict[str, typing.Any]", False), ("tuple[typing.Any, ...]", False), ("list[VwT]", False),
     ("typing.Optional[typing.Any]", False), ("dict[str, object]", False), ("tuple[int, typing.Any]", False), ("list[VwG[int]]", False),
@@ -123,6 +125,11 @@ class C15(PropBase):
         sw = hist.swarm(rng, FAULTS)
         world, view = gen.gen_world(rng, cfg, nmods=1)
         world["modules"][0]["decls"].append({"d": "raw", "n": "VwT", "src": UPLUS_SRC})
+        # wrappers declared in another module than the class they wrap
+        world["modules"].append({"name": "vwx", "future": False, "decls": [{"d": "raw", "n": "VwXOwner", "src": (
+            "VwXOwner = typing.NewType('VwXOwner', vw0.VwScale)\n"
+            "VwXPayee = typing.TypeAliasType('VwXPayee', vw0.VwParent)\n"
+            "VwXSelf = typing.NewType('VwXSelf', vw0.VwSelf)\n")}]})
         env = self.base_env(rng, fault_free=True)
         if "reclimit" in sw:
             env["reclimit"] = rng.choice([1000, 2000, 5000])
